@@ -12,8 +12,8 @@ BOUNDS = {
              "an arbitrary symbolic pair profile per pair: 3 trains, <= 2 pieces (ISI/SPIKE-like) or <= 2 events "
              "(sync-like) per pair, interval None and a symbolic sub-interval u < w anywhere relative to the breakpoints, "
              "py and pyx add routines",
-    "thorough": "(a) ISI 3+3, SPIKE n1+n2<=5, sync/order 3+3; (b) 3 trains with <= 3 pieces per pair, 4 trains with <= 2 "
-                "pieces on at most 3 of the 6 pairs",
+    "thorough": "(a) ISI 3+3, SPIKE n1+n2<=4 (max 3 each), sync/order 3+3; (b) 3 trains: ISI-like <= 3 pieces per pair (sub-interval: "
+                "<= 7 pieces in total), sync-like <= (3,2,1) events (sub-interval: <= 5 in total), SPIKE-like as in quick",
 }
 OUTSIDE = "larger sizes; sub-interval averaging of real-kernel profiles is covered by composition with C10 (exact integral of any profile)"
 ASSUMPTIONS = ["(b) stub: <measure>_profile_bi returns an arbitrary symbolic profile per pair (vf/stubs.py)",
@@ -34,7 +34,7 @@ def configs(tier):
                         yield dict(name="sync-%s-mt%s-m%s-%d+%d" % (be, mt, mk, n1, n2), what="sync", backend=be, mt=mt,
                                    m=mk, n1=n1, n2=n2, cost=6 ** (n1 + n2) * (3 if mk == "pos" else 1),
                                    split_forks=(8 if n1 + n2 >= 4 else None))
-                if max(n1, n2) <= (2 if q else 3) and n1 + n2 <= 5:
+                if max(n1, n2) <= (2 if q else 3) and n1 + n2 <= 4:
                     for ri in (0, 1):
                         for mk in ("omit", "sym"):
                             if q and mk == "sym" and n1 + n2 > 3:
@@ -43,16 +43,25 @@ def configs(tier):
                                        ri=ri, m=mk, n1=n1, n2=n2, fork=True, validate=3,
                                        cost=9 ** (n1 + n2) * (2 if mk == "sym" else 1),
                                        split_forks=(8 if n1 + n2 >= 3 else None))
+        # (a') three trains, MRTS='auto': the multivariate scalar (mean of pair values, pooled
+        # threshold) must equal the average of the multivariate profile with the same keyword
+        for ns in ((1, 1, 1), (1, 0, 1), (2, 1, 0)) + (((2, 1, 1), (2, 2, 0)) if not q else ()):
+            for meas in ("isi", "sync"):
+                if meas == "isi" and ns != (1, 0, 1):
+                    continue      # larger ISI cases with a symbolic root: measured undecided
+                yield dict(name="auto3-%s-%s-%s" % (be, meas, "".join(map(str, ns))), what="auto3", backend=be, meas=meas,
+                           ns=list(ns), validate=2, cost=40 * 8 ** sum(ns),
+                           split_forks=(7 if sum(ns) >= 3 else None))
         # (b) Layer 2
         for kind in ("const", "lin", "disc"):
             shapes = [(1, 1, 1), (2, 1, 1), (1, 2, 2), (2, 2, 2), (2, 0, 1)]
             if not q:
-                shapes += [(3, 2, 1), (3, 3, 2), (3, 3, 3)]
+                shapes += [(3, 2, 1), (3, 3, 2), (3, 3, 3)] if kind == "const" else [(3, 2, 1)] if kind == "disc" else []
             for sh in shapes:
                 if kind != "disc" and 0 in sh:
                     continue
                 for iv in ("none", "sub"):
-                    if q and iv == "sub" and sum(sh) > (4 if kind == "disc" else 5):
+                    if iv == "sub" and sum(sh) > ((4 if kind == "disc" else 5) if q else (5 if kind == "disc" else 7)):
                         continue
                     if kind == "lin" and iv == "sub" and sum(sh) > 3:
                         continue      # cubic identities with a symbolic interval: beyond nlsat (measured: undecided)
@@ -75,6 +84,8 @@ def program(E, cfg):
     what = cfg["what"]
     if what == "multi":
         return multi(E, cfg)
+    if what == "auto3":
+        return auto3(E, cfg)
     ts, te = hx.edges(E)
     s1 = hx.spikes(E, "a", cfg["n1"], ts, te)
     s2 = hx.spikes(E, "b", cfg["n2"], ts, te)
@@ -120,6 +131,22 @@ def program(E, cfg):
         E.prove(E.eq(F, o.avrg()), "spike_train_order = spike_train_order_profile.avrg()")
         if cfg["n1"] + cfg["n2"] > 0:
             E.prove(E.eq(F * sum(o.mp[1:-1]), sum(o.y[1:-1])), "spike_train_order = summed values / summed multiplicities")
+
+
+def auto3(E, cfg):
+    ts, te = hx.edges(E)
+    S = [hx.spikes(E, "abc"[k], n, ts, te) for k, n in enumerate(cfg["ns"])]
+    T = [hx.train(s, ts, te) for s in S]
+    if cfg["meas"] == "isi":
+        d = pyspike.isi_distance(T, MRTS="auto")
+        p = pyspike.isi_profile(T, MRTS="auto")
+        E.observe("d", d)
+        E.prove(E.eq(d, p.avrg()), "isi_distance(trains, MRTS='auto') = average of isi_profile(trains, MRTS='auto')")
+    else:
+        v = pyspike.spike_sync(T, MRTS="auto")
+        p = pyspike.spike_sync_profile(T, MRTS="auto")
+        E.observe("sync", v)
+        E.prove(E.eq(v, p.avrg()), "spike_sync(trains, MRTS='auto') = average of spike_sync_profile(trains, MRTS='auto')")
 
 
 def multi(E, cfg):
